@@ -428,6 +428,14 @@ func runPropertyEnum[C any](t *testing.T, prop string, enum []C, gen func(*rapid
 	}
 }
 
+// tierN picks a bound by tier: the thorough tier explores longer histories and bigger worlds.
+func tierN(quick, thorough int) int {
+	if *flagTier == "thorough" {
+		return thorough
+	}
+	return quick
+}
+
 // digestOf hashes any JSON-marshalable observation log.
 func digestOf(v any) string {
 	b, err := json.Marshal(v)
